@@ -1,8 +1,22 @@
-import re
+import os, re, subprocess, sys
 from concurrent.futures import ThreadPoolExecutor
 from vlib import core
 
 SRC = lambda: [core.repo_src('net', 'socket_address.c'), core.repo_src('net', 'utils.c')]
+
+
+def build(tier, want=('text', 'prefix', 'sweep')):
+    with ThreadPoolExecutor(max_workers=3) as ex:
+        f = {}
+        if 'text' in want:
+            f['text'] = ex.submit(core.compile_c, 'C18', 'h_c18_text', ['harness/C18/h_c18_text.c'] + SRC())
+        if 'prefix' in want:
+            f['prefix'] = ex.submit(core.compile_c, 'C18', 'h_c18_prefix', ['harness/C18/h_c18_prefix.c'] + SRC(), (), 'gcc', '-O2')
+        if 'sweep' in want and tier == 'thorough':
+            # the 2^32-address sweep compares values only; memory safety of the same functions is the ASan build's job
+            f['sweep'] = ex.submit(core.compile_c, 'C18', 'h_c18_sweep', ['harness/C18/h_c18_prefix.c'] + SRC(),
+                                   ('-DC18_SWEEP', '-flto'), 'gcc', '-O3', 'none')
+        return {k: v.result() for k, v in f.items()}
 
 
 def run(tier):
@@ -19,14 +33,7 @@ def run(tier):
         'documented spellings are recognised with libc inet_pton plus the bracket/port/prefix syntax shown in the header comments; inputs outside that set are only judged by "the address that came out is inet_pton of some part of the input"',
         'prefix reference: shifts on uint32_t / unsigned __int128, stored big-endian',
         'STR_ADDR_LEN is taken as the documented sufficient buffer (every caller in src/ uses it)']
-    with ThreadPoolExecutor(max_workers=3) as ex:
-        ft = ex.submit(core.compile_c, 'C18', 'h_c18_text', ['harness/C18/h_c18_text.c'] + SRC())
-        fp = ex.submit(core.compile_c, 'C18', 'h_c18_prefix', ['harness/C18/h_c18_prefix.c'] + SRC(), (), 'gcc', '-O2')
-        bins = {'text': ft.result(), 'prefix': fp.result()}
-        if tier == 'thorough':
-            # the 2^32-address sweep compares values only; memory safety of the same functions is the ASan build's job
-            bins['sweep'] = ex.submit(core.compile_c, 'C18', 'h_c18_sweep', ['harness/C18/h_c18_prefix.c'] + SRC(),
-                                      ('-DC18_SWEEP', '-flto'), 'gcc', '-O3', 'none').result()
+    bins = build(tier)
     rep.configs = ['text: h_c18_text.c (gcc -O1 asan)', 'prefix: h_c18_prefix.c (gcc -O2 asan)']
     if 'sweep' in bins:
         rep.configs.append('sweep: h_c18_prefix.c -DC18_SWEEP (gcc -O3 -flto, no sanitizer; thorough only)')
@@ -50,3 +57,37 @@ def run(tier):
                                   'inside the section named in per_target with run < cases')
     rep.extra['observed_not_judged'] = sums
     rep.finish(core.make_replayer(lambda cfg: bins[cfg or 'text'], tier))
+
+
+TEXT_TARGETS = ('sa_addr_to_str', 'sa_addr_port_to_str', 'sa_addr_from_str', 'sa_addr_port_from_str', 'str_net_to_ss')
+
+
+def replay(r, tier):
+    """./check C18 --replay replay/C18/<x>.replay : rebuild, re-run exactly the recorded case (found by its
+    description, so the tier the file was recorded in does not matter), say whether the clause still fails."""
+    target, clause = r['target'], r['clause']
+    desc = r['case'].split(' | ')[0]
+    cfg = r.get('config') or ('text' if target in TEXT_TARGETS else 'sweep' if target.endswith('all_addresses') else 'prefix')
+    hit = False
+    for t in ([tier] + [x for x in ('quick', 'thorough') if x != tier]) if cfg != 'sweep' else ['thorough']:
+        b = build(t, (cfg,))[cfg]
+        p = subprocess.run([b, '--tier', t, '--only', target], capture_output=True, timeout=3000,
+                           env=dict(os.environ, C18_ONLY_DESC=desc))
+        out = p.stdout.decode('utf-8', 'replace')
+        for line in out.splitlines():
+            f = line.split('\t')
+            if f[0] == 'VIOL':
+                print(line)
+                if f[1] == target and f[2] == clause:
+                    hit = True
+        m = re.search(r'replay_matched=(\d+)', out)
+        if hit or (m and int(m.group(1)) > 0):
+            break       # the case exists in this tier's enumeration and was run
+    else:
+        sys.stderr.write('recorded case not found in either tier: %s\n' % desc)
+        return 2
+    if hit:
+        print('VIOLATION property=C18 replay=%s' % os.path.join(core.VERIF, 'replay', 'C18', re.sub(r'[^A-Za-z0-9_.-]+', '_', '%s-%s' % (target, clause))[:100] + '.replay'))
+        return 1
+    print('not reproduced: %s / %s on %s' % (target, clause, desc))
+    return 0
